@@ -116,6 +116,11 @@ pub trait Prop: Sync + Send {
     fn exec(&self, case: &J, st: &mut Stats) -> Result<RunOut, String> {
         let _clock = simkernel::rawsys::clock::enter();
         let r = self.exec_inner(case, st);
+        let secs = simkernel::rawsys::clock::elapsed_ns() / 1_000_000_000;
+        if secs > 0 {
+            // simulated time covered by the runs (beyond the logical steps): seconds of the virtual clock
+            st.probe_n("simulated_clock_seconds_elapsed", secs);
+        }
         let reads = simkernel::rawsys::clock::reads();
         if reads > 0 {
             st.probe_n("clock_read_during_run", reads);
